@@ -99,7 +99,7 @@ Bugs = DashOption(
     title='Bug compatibility',
     description='Produce a stream with known bugs',
     from_string=DashOption.list_without_none_from_string,
-    to_string=lambda bugs: ','.join(bugs),
+    to_string=DashOption.url_text,
     cgi_name='bugs',
     cgi_choices=(None, 'saio'))
 
